@@ -1,6 +1,8 @@
 SPECIFICATION MCSpec
 CONSTANTS WakeAll = TRUE
  NotifyOnFail = TRUE
+ NarrowLock = FALSE
+ MaxWriters = 1
  MaxReaders = 2
  MaxStores = 3
  MaxCancel = 1
